@@ -952,6 +952,10 @@ func valueRows(fn *ssa.Function, v ssa.Value, at *ssa.BasicBlock, loops bool) ([
 	}
 	var rows []Row
 	seenPhi := map[*ssa.Phi]bool{}
+	// tail: the branch literals of the phi edges already descended through (outermost first): an
+	// alternative of an inner phi is taken only if control also left the inner region through
+	// the edge that carried the inner phi into the outer one
+	var tail []Lit
 	var walk func(v ssa.Value, b *ssa.BasicBlock, cond DNF, depth int)
 	walk = func(v ssa.Value, b *ssa.BasicBlock, cond DNF, depth int) {
 		if len(cond) == 0 {
@@ -984,8 +988,25 @@ func valueRows(fn *ssa.Function, v ssa.Value, at *ssa.BasicBlock, loops bool) ([
 				// the conditions between the phi's block and the block in which the value is
 				// used, as they read for a path that entered through p (tests of sibling phis -
 				// the other results of an expanded helper - are decided by p's operands)
+				saved := len(tail)
+				if iff, isIf := lastIf(p); isIf && p.Succs[0] != p.Succs[1] && !back {
+					cv, neg := BoolCond(iff.Cond)
+					pos := p.Succs[0] == pb
+					if neg {
+						pos = !pos
+					}
+					tail = append(tail, mkLit(cv, pos))
+				}
 				walk(e, p, simplify(suffixCond(pb, b, p, pc)), depth+1)
+				tail = tail[:saved]
 			}
+			return
+		}
+		for _, l := range tail {
+			cond = cond.and(l)
+		}
+		cond = simplify(cond)
+		if len(cond) == 0 {
 			return
 		}
 		rows = append(rows, Row{Cond: cond, Outcome: "value:" + Sig(v), Val: v, Via: b})
